@@ -19,17 +19,17 @@ CHECKS = {
          "DESIGN.md#c18"),
  "C15": ("S", "model_checking",
          "controlled-scheduler exploration of real threads at lock granularity (preemption-bounded DFS, unbounded in thorough) + exhaustive cache-history BFS + bounded-exhaustive input enumeration",
-         "S: 9 scenarios of 2-3 real threads on a shared BlsCache (capacity 1,2) run under a scheduler that owns every lock acquisition through hook H1; every interleaving with <=3 preemptions (quick) / every interleaving (thorough, ~20k schedules) is executed; per schedule: each thread's verdict equals the cache-free verdict, len<=capacity at every scheduling point, no deadlock, the warmed cache still answers correctly. H: every history of <=3/<=4 operations from a 17-letter alphabet (verify valid/invalid over pairs sharing key or message, update, evict) on capacities 1,2,3. E: every pair list of length <=2/<=3 over 5 letters (incl. the infinity key and the empty message) x 6 signature kinds through verify, aggregate_verify, aggregate_verify_gt and the cache (cold/warm, 3 capacities).",
+         "S: 9 scenarios of 2-3 real threads on a shared BlsCache (capacity 1,2) run under a scheduler that owns every lock acquisition through hook H1; every interleaving with <=3 preemptions (quick) / every interleaving (thorough, ~20k schedules) is executed, plus in thorough two 3-verifier scenarios with pairwise overlapping lists bounded at 3 preemptions; per schedule: each thread's verdict equals the cache-free verdict, len<=capacity at every scheduling point, no deadlock, the warmed cache still answers correctly. H: every history of <=3/<=4 operations from a 17-letter alphabet (verify valid/invalid over pairs sharing key or message, update, evict) on capacities 1,2,3. E: every pair list of length <=2/<=3 over 5 letters (incl. the infinity key and the empty message) x 6 signature kinds through verify, aggregate_verify, aggregate_verify_gt and the cache (cold/warm, 3 capacities).",
          "trusts: hook H1 reports every acquisition/release of the cache mutex; no shared state outside that mutex (unsafe_code denied in the workspace outside blst FFI); BLS signature uniqueness for the expected verdict",
          "DESIGN.md#c15"),
  "C01": ("E", "exploration",
          "bounded-exhaustive enumeration of generator outputs against an independent reference model of the condition rules",
-         "Every generator output of four stated layers (single condition: 52 opcode atoms x all argument lists of length <=2/<=3 over 27 letters x terminator; all 64 message modes with type-correct and singly-corrupted commitments; 17 integer atoms through every integer-typed condition and CREATE_COIN memo shapes; spend A with every ordered pair of ~107 interaction letters alone or with a child / sibling / double-spend carrying one letter; structural defects at all 5 list positions; the 1024-announcement and 6000-spend caps) is run through the real parse_spends with both visitors and the flag subsets of {NO_UNKNOWN_CONDS, STRICT_ARGS_COUNT, COST_CONDITIONS} and through the reference model written from the rule table (DESIGN.md Appendix A); verdict, canonical summary (incl. eligibility flags under the mempool visitor) and condition cost must be equal. 14M (quick) / ~90M (thorough) evaluations, exhaustive inside the stated alphabets.",
+         "Every generator output of four stated layers (single condition: 52 opcode atoms x all argument lists of length <=2/<=3 over 27 letters x terminator; all 64 message modes with type-correct and singly-corrupted commitments; 17 integer atoms through every integer-typed condition and CREATE_COIN memo shapes; spend A with every ordered pair of ~107 interaction letters alone or with a child / sibling / double-spend carrying one letter; a coin whose parent id equals its puzzle hash messaging itself under every pair of commitment modes; structural defects at all 5 list positions; the 1024-announcement and 6000-spend caps; thorough adds every ordered triple over one representative letter per condition kind) is run through the real parse_spends with both visitors and the flag subsets of {NO_UNKNOWN_CONDS, STRICT_ARGS_COUNT, COST_CONDITIONS} and through the reference model written from the rule table (DESIGN.md Appendix A); verdict, canonical summary (incl. eligibility flags under the mempool visitor) and condition cost must be equal. 14M (quick) / ~90M (thorough) evaluations, exhaustive inside the stated alphabets.",
          "trusts: the reference model mc::refcond (reviewable against Appendix A); valid public keys = the harness's own three keys; signatures are not validated here (C05); conditions interacting in groups of more than 3, messages >1025 bytes and most of the 65536 two-byte opcodes are outside the alphabet",
          "DESIGN.md#c01"),
  "C03": ("E", "exploration",
          "bounded-exhaustive enumeration of lock/birth condition multisets x chain-state grid against per-assertion arithmetic semantics",
-         "Every multiset of <=3 (quick) / <=4 (thorough) conditions over the 10 lock/birth kinds x 8 argument atoms (negative, 0, 1, 2, 2^32-1, 2^32, 2^64-1, 2^64) on one coin is parsed by the real parse_spends (both visitors), converted to owned conditions and checked by the real check_time_locks(nowrap) on all 576 chain states of a boundary grid; the verdict must equal the conjunction of the original assertions evaluated literally in u128 with saturation. Bundles rejected at parse time must contain an assertion that can never hold or be unsatisfiable as a conjunction (decided exactly per dimension); every multiset of <=2 on an ephemeral coin must be rejected iff it contains a relative/birth condition (tautological forms included).",
+         "Every multiset of <=3 (quick) / <=4 (thorough) conditions over the 10 lock/birth kinds x 8 argument atoms (negative, 0, 1, 2, 2^32-1, 2^32, 2^64-1, 2^64) on one coin is parsed by the real parse_spends (both visitors), converted to owned conditions and checked by the real check_time_locks(nowrap) on all 576 chain states of a boundary grid; the verdict must equal the conjunction of the original assertions evaluated literally in u128 with saturation. Bundles rejected at parse time must contain an assertion that can never hold or be unsatisfiable as a conjunction (decided exactly per dimension); every multiset of <=2 on an ephemeral coin must be rejected iff it contains a relative/birth condition (tautological forms included); two independent coins with one assertion each (all 6400 ordered pairs) are checked against each coin's own record.",
          "trusts: the per-assertion definitions in c03.rs (after: now >= bound, before: now < bound, birth: equality, relative bound = min(confirmed+arg, max)); locks spread over several spends and the legacy wrapping mode are not covered",
          "DESIGN.md#c03"),
  "C04": ("E", "exploration",
@@ -39,7 +39,7 @@ CHECKS = {
          "DESIGN.md#c04"),
  "C02": ("E", "exploration",
          "bounded-exhaustive sweep of bundles with amounts near 2^64 through all entry points with an invariant monitor on every accepted result",
-         "Every bundle of 1-3 spends with coin amounts in {0,1,2^63,2^64-1}, output multisets over 2 puzzle hashes x the same amounts (<=3 / <=2+1(2) / <=1 each) and RESERVE_FEE in {absent,0,1,2^64-1} (215k quick, ~1M thorough) is run through parse_spends (both visitors), run_block_generator, run_block_generator2, run_spendbundle and validate_clvm_and_signature; acceptance must equal the u128 arithmetic of the case, and on every accepted result the monitor recomputes from the listed spends and outputs: additions+fee<=removals, reported totals = sums, coin ids distinct and = SHA-256(parent|ph|minimal amount), no duplicate (ph,amount) per spend, puzzle hash = own tree hash of the revealed puzzle. Plus 300/6000 spends of 2^64-1 and a spend with 4000 outputs.",
+         "Every bundle of 1-3 spends with coin amounts in {0,1,2^63,2^64-1}, output multisets over 2 puzzle hashes x the same amounts (<=3 / <=2+1(2) / <=1 each) and RESERVE_FEE in {absent,0,1,2^64-1} (215k quick, ~1M thorough) is run through parse_spends (both visitors), run_block_generator, run_block_generator2, run_spendbundle and validate_clvm_and_signature; acceptance must equal the u128 arithmetic of the case, and on every accepted result the monitor recomputes from the listed spends and outputs: additions+fee<=removals, reported totals = sums, coin ids distinct and = SHA-256(parent|ph|minimal amount), no duplicate (ph,amount) per spend, puzzle hash = own tree hash of the revealed puzzle. Plus 300/6000 spends of 2^64-1, a spend with 4000 outputs, and every pair of the 23 minimal-encoding length-class boundary amounts as (spent, created) with the Coin::coin_id() helper cross-checked.",
          "trusts: harness u128 arithmetic, harness tree hash and integer codec (mc::sx), sha2 crate",
          "DESIGN.md#c02"),
  "C06": ("E", "exploration",
@@ -59,12 +59,12 @@ CHECKS = {
          "DESIGN.md#c17"),
  "C07": ("E", "exploration",
          "bounded-exhaustive differential enumeration of generator programs (families + every prefix + every single-byte substitution) x block references x flag subsets x cost limits through both execution paths",
-         "Every program of the stated families (quoted spend lists: 2 puzzle kinds x ~108 condition letters, 8 failing puzzles, two-spend/double-spend/empty lists, 15 spend-tuple defects x terminators x output extension; 11 procedural templates incl. data read from block references 1 and 2; each plain and back-reference compressed) x 4 block reference lists x all 32 subsets of {MEMPOOL_MODE, COST_CONDITIONS, SIMPLE_GENERATOR, LIMIT_SPENDS, INTERNED_GENERATOR} x limits {max block, c2, c2-1, c1, c1-1}, plus every proper prefix and every single-byte substitution by {00,01,7f,80,fe,ff} of every base program <=200 bytes (bound 2 on tiny programs) is run through run_block_generator and run_block_generator2: same verdict, identical canonical summary and condition cost, native cost <= legacy cost; a legacy-only rejection is accepted only for cost / allocator / stack-limit errors. 1.4M runs quick.",
+         "Every program of the stated families (quoted spend lists: 2 puzzle kinds x ~108 condition letters, 8 failing puzzles, two-spend/double-spend/empty lists, 15 spend-tuple defects x terminators x output extension; 11 procedural templates incl. data read from block references 1 and 2; each plain and back-reference compressed) x 4 block reference lists x all 32 subsets of {MEMPOOL_MODE, COST_CONDITIONS, SIMPLE_GENERATOR, LIMIT_SPENDS, INTERNED_GENERATOR} x limits {max block, c2, c2-1, c1, c1-1}, plus every proper prefix, every single-byte substitution by {00,01,7f,80,fe,ff}, every single-byte insertion of {00,01,80,81,fe,ff} and every single-byte deletion of every base program <=200 bytes (bound 2 on tiny programs; thorough adds the 14 recorded mainnet blocks with substitutions at 256 positions) is run through run_block_generator and run_block_generator2: same verdict, identical canonical summary and condition cost, native cost <= legacy cost; a legacy-only rejection is accepted only for cost / allocator / stack-limit errors. 2.7M runs quick.",
          "trusts: nothing beyond the comparison (both sides are the real code); known finding: under INTERNED_GENERATOR the size term makes the native path dearer (recorded, all other agreement still checked with the size term removed)",
          "DESIGN.md#c07"),
  "C08": ("E", "exploration",
          "bounded-exhaustive differential enumeration of spend bundles through the mempool path and four block-generator constructions",
-         "Every bundle of the stated alphabet (one spend x 23 amounts covering every encoding length class x 4 puzzle kinds x <=1 of ~108 interaction letters, a wrong-declared-hash letter per amount, every ordered pair of letters on the identity puzzle (quick: one third), two spends sharing the puzzle reveal with <=1 letter each, an ephemeral chain) under the 8 combinations of MEMPOOL_MODE, COST_CONDITIONS, INTERNED_GENERATOR is run through run_spendbundle and through run_block_generator2 on solution_generator, solution_generator_backrefs, BlockBuilder and InternedBlockBuilder output: same verdict, same conditions (mempool-only flags masked), equal condition cost, execution cost + 20, plain-generator cost - direct cost = 20 + 2*cost_per_byte (20 under INTERNED_GENERATOR), solution_generator bytes = harness rendering and calculate_generator_length = actual length.",
+         "Every bundle of the stated alphabet (one spend x 23 amounts covering every encoding length class x 4 puzzle kinds x <=1 of ~108 interaction letters, a wrong-declared-hash letter per amount, every ordered pair of letters on the identity puzzle (quick: one third), two spends sharing the puzzle reveal with <=1 letter each, an ephemeral chain, and three really signed bundles through each builder with the middle one declined after serialisation, validated with signature checking) under the 8 combinations of MEMPOOL_MODE, COST_CONDITIONS, INTERNED_GENERATOR is run through run_spendbundle and through run_block_generator2 on solution_generator, solution_generator_backrefs, BlockBuilder and InternedBlockBuilder output: same verdict, same conditions (mempool-only flags masked), equal condition cost, execution cost + 20, plain-generator cost - direct cost = 20 + 2*cost_per_byte (20 under INTERNED_GENERATOR), solution_generator bytes = harness rendering and calculate_generator_length = actual length.",
          "trusts: harness generator rendering (mc::genr) and serialiser; puzzle reveals are the canonical plain serialisation (the property's precondition)",
          "DESIGN.md#c08"),
  "C13": ("E", "exploration",
